@@ -323,6 +323,48 @@ func runEnumCase(c enumCase) *core.Failure {
 			return f
 		}
 	}
+	// column against column: two columns of the same declared enum type compare by declared rank (ties included)
+	if len(declared) > 0 && c.Path == "new" && len(data) > 1 {
+		rot := append(append([]string{}, data[1:]...), data[0])
+		ptr := func(vals []string) []*string {
+			out := make([]*string, len(vals))
+			for i := range vals {
+				if vals[i] != nilMark {
+					out[i] = &vals[i]
+				}
+			}
+			return out
+		}
+		e2 := model.Col{Name: "e2", Kind: model.Enum, EnumVals: declared}
+		for _, d := range rot {
+			if d == nilMark {
+				e2.Cells = append(e2.Cells, model.Null())
+			} else {
+				e2.Cells = append(e2.Cells, model.S(d))
+			}
+		}
+		pf := model.Frame{N: len(data), Cols: []model.Col{want, e2}}
+		pq := qframe.New(map[string]interface{}{"e": ptr(data), "e2": ptr(rot)}, newqf.Enums(map[string][]string{"e": declared, "e2": declared}), newqf.ColumnOrder("e", "e2"))
+		if pq.Err != nil {
+			return core.Failf("%s: could not build the two-column frame: %v", what, pq.Err)
+		}
+		for _, op := range []string{"<", "<=", ">", ">=", "=", "!="} {
+			for _, inv := range []bool{false, true} {
+				l := lf("e", op, "col")
+				l.ArgCol = "e2"
+				l.Inverse = inv
+				res := model.Observe(pq.Filter(model.BuildClause(model.LeafC(l), pf.Kinds())))
+				rows, err := model.Evaluator{F: pf}.Filter(model.LeafC(l))
+				if err != nil {
+					return core.Failf("%s: model rejects %s: %v", what, model.LeafC(l), err)
+				}
+				res.AdoptMeta(pf)
+				if d := model.Diff(pf.Rows(rows), res); d != "" {
+					return core.Failf("%s: second column %.80q: Filter %s: %s\n want rows %v", what, rot, model.LeafC(l), d, rows)
+				}
+			}
+		}
+	}
 	// sort by the declared order
 	if len(declared) > 0 {
 		idc := model.Col{Name: "id", Kind: model.Int}
@@ -439,7 +481,7 @@ func init() {
 		Level: "model_checking",
 		Rule: "case = (declared value list or none, data column, construction path New+Enums / ReadCSV+Types,EnumValues / ReadJSON+Enums / ConstString / New followed by GroupBy(e).Aggregate, i.e. the enum column as rebuilt for a key column). Small: every permutation of every non-empty subset of {a,b,c} (and no declaration) x every data column of 1-3 cells over {a,b,c,null,undeclared} x 3 paths (+ constant columns); " +
 			"large: declared lists of 63,64,65,127,128,129,191,192,193,254,255 (accepted) and 256,300 (rejected) values in reverse-alphabetical declared order with data on ranks 0,1,62-65,126-129,190-193,253,254 and nulls; derived enums of cardinality 1,2,3,64,65,254,255 (accepted), 256,257,300 (clean Err). " +
-			"Per accepted case: cells reproduce the data (never another string, null stays null); Filter with <,<=,>,>=,=,!= (and Inverse) against every declared constant / boundary rank follows the declared rank; an undeclared constant is an error; in/like/ilike select exactly the named boundary ranks; isnull/isnotnull; Sort in 4 flag combinations is ordered by declared rank. All cases non-trivial; distinct by content.",
+			"Per accepted case: cells reproduce the data (never another string, null stays null); Filter with <,<=,>,>=,=,!= (and Inverse) against every declared constant / boundary rank follows the declared rank; an undeclared constant is an error (also on a frame without rows and as the last member of a saturated Or); the column against a second column of the same type (the data rotated by one) under all six comparators and Inverse; in/like/ilike select exactly the named boundary ranks; isnull/isnotnull; Sort in 4 flag combinations is ordered by declared rank. All cases non-trivial; distinct by content.",
 		Assumptions: []string{
 			"rank = position in the declared list (reference model/clause.go, checkSorted of C03)",
 			"for derived enums only =, !=, in, like, isnull are checked (no order is declared)",
